@@ -161,7 +161,7 @@ def run(ctx):
     NONE = 1023
     KC = tbl(enumerate(key_code), 65535, 16); KO = tbl([(j_, o if o >= 0 else NONE) for j_, o in enumerate(key_owner)], NONE, 10)
     sol = z3.Solver()
-    queries = []; t_sol = 0.0
+    queries = []; t_sol = 0.0; asked = []
     def decide(name, extra, witness):
         nonlocal t_sol
         sol.push(); sol.add(extra)
@@ -169,6 +169,7 @@ def run(ctx):
         m = sol.model() if r == z3.sat else None
         sol.pop()
         queries.append({'obligation': name, 'result': str(r), 'solver_s': round(time.time() - t, 2)})
+        asked.append((name, extra, str(r)))
         if r == z3.unknown: ctx.note_inconclusive('solver unknown on ' + name)
         return witness(m) if m is not None else None
     findings = []
@@ -246,18 +247,27 @@ def run(ctx):
     ctx.assume('Number magnitude text is C01/C04 business; here: which identifier text is re-read as which unit')
     ctx.obligation('unit-table-obligations', 'held' if not ctx.violations else 'violated', obligations=len(queries))
     if not ctx.quick():
-        cross_check_cvc5(ctx, entries, key_code, key_owner)
+        cross_check_cvc5(ctx, asked)
 
 
-def cross_check_cvc5(ctx, entries, key_code, key_owner):
-    """second solver on the ownership obligation (SMT-LIB2 text through cvc5)"""
-    lines = ['(set-logic ALL)', '(declare-fun kc (Int) Int)', '(declare-fun ko (Int) Int)']
-    for j, (c, o) in enumerate(zip(key_code, key_owner)): lines.append('(assert (and (= (kc %d) %d) (= (ko %d) %d)))' % (j, c, j, o))
-    lines += ['(declare-const i Int)', '(declare-const j Int)', '(assert (and (<= 0 i) (< i j) (< j %d) (= (kc i) (kc j)) (not (= (ko i) (ko j)))))' % len(entries), '(check-sat)']
-    p = subprocess.run(['cvc5', '--lang', 'smt2'], input='\n'.join(lines).encode(), stdout=subprocess.PIPE, stderr=subprocess.STDOUT, timeout=600)
-    out = p.stdout.decode()
-    ctx.cov['cvc5_shared_identifier'] = out.strip()[:40]
-    if '(error' in out: ctx.note_inconclusive('cvc5 error: ' + out[:200])
+def cross_check_cvc5(ctx, asked):
+    """second solver on the very same obligations: z3's formula exported as SMT-LIB2 and decided by cvc5.  A differing verdict
+    is inconclusive; a cvc5 timeout is recorded (the deciding verdict is z3's, the cross-check is then simply missing)"""
+    out = {}
+    for name, extra, zres in asked:
+        s_ = z3.Solver(); s_.add(extra)
+        text = '(set-logic QF_BV)\n' + s_.to_smt2()
+        out[name] = {}
+        for solver, cmd, lim in (('cvc5', ['cvc5', '--lang', 'smt2'], 45), ('z3-5.1', ['z3-new', '-in'], 120)):
+            try:
+                p = subprocess.run(cmd, input=text.encode(), stdout=subprocess.PIPE, stderr=subprocess.STDOUT, timeout=lim)
+                res = p.stdout.decode().strip().split('\n')[0][:40]
+            except (subprocess.TimeoutExpired, OSError) as e:
+                res = 'timeout' if isinstance(e, subprocess.TimeoutExpired) else 'unavailable'
+            out[name][solver] = res
+            if res.startswith('(error'): ctx.note_inconclusive('%s error on %s: %s' % (solver, name, res))
+            elif res in ('sat', 'unsat') and res != zres: ctx.note_inconclusive('solvers disagree on %s: z3 %s, %s %s' % (name, zres, solver, res))
+    ctx.cov['cvc5_cross_check'] = out
 
 
 def replay(ctx, path):
